@@ -473,8 +473,10 @@ class DeepInliner(Inliner):
                     setattr(e, fld, visit(val, e))
                 elif isinstance(val, list):
                     setattr(e, fld, [visit(x, e) if isinstance(x, ast.AST) else x for x in val])
-            if isinstance(s, ast.If) and not isinstance(via, (ast.NamedExpr, ast.Compare)):
-                return e  # a predicate used for its truth value: summarised inside guard formulas (core/inline.py), not flattened
+            if isinstance(s, ast.If) and not (isinstance(via, ast.NamedExpr) or (isinstance(via, ast.Compare) and all(isinstance(o, (ast.Is, ast.IsNot, ast.Eq, ast.NotEq)) for o in via.ops))):
+                # a predicate used for its truth value is summarised inside guard formulas (core/inline.py); a value that is looked
+                # up (`f(x) in nodes`) stays visible as the call it is
+                return e
             if isinstance(e, ast.Call) and not top_level(e) and outer._inlinable_call(ctx, e, stack) and not outer._expression_helper(ctx, e):
                 callee = outer._resolve(ctx, e)
                 name = outer._fresh_tmp(f"value__{callee.name.strip('_')}", taken)
